@@ -579,6 +579,20 @@ def check(fx, rep, tier):
                                 ok, det = True, det2
             rep.check(ok, 'E5', 'float|%s|%s' % (body.path.split('::')[-1], cfg), body.where(), 'NaN / infinite take the write_null arm, finite values the ryu writer',
                       'the float writer is not guarded by the classify() test as (NaN|Infinite -> null, otherwise -> write_f*): %s' % det, det)
+        # the shortest-representation formatter runs in the width of the value: `format_finite(v as f64)` for an f32 prints the f64 neighbour (0.1f32 -> 0.10000000149011612)
+        for body in crate.bodies:
+            if body.in_test or 'json_ser' not in body.path or body.name not in ('write_f32', 'write_f64'):
+                continue
+            want_ty = body.name[-3:]
+            for b, t in body.iter_terms('call'):
+                if t['callee'].get('name') in ('format_finite', 'format') and 'ryu' in (t['callee'].get('def') or t['callee'].get('krate') or ''):
+                    inst = (t['callee'].get('args') or '')
+                    aty = ((mir.op_place(t['args'][1]) or {}).get('ty') or t['args'][1].get('ty') or '') if len(t['args']) > 1 else ''
+                    okw = (want_ty in inst) if inst else (aty == want_ty)
+                    rep.check(okw, 'E5', 'float|%s|formatter-width|%s' % (body.name, cfg), C.where(body, b),
+                              '%s formats the value as %s' % (body.name, want_ty),
+                              '%s hands the shortest-representation formatter a value of another width (instantiated with %s, argument type %s): the digits differ from serde_json for every value whose shortest %s decimal '
+                              'is not its shortest decimal in the other width' % (body.name, inst or '?', aty or '?', want_ty))
         rep.floor('E5', 2, 'float serializer methods')
         # ---- E6 slice writer
         bts = []
